@@ -16,6 +16,7 @@ func init() {
 			"(idx-section-order) the encoder's state chain and the decoder's flows name the same sections in the same order (header, fanout, names, crc, offsets, checksums); " +
 			"(idx-validated-before-use) Decoder.Decode allocates the name/crc/offset tables only after validateIdxV2Size succeeded and returns success only on the checksum-equal edge; readFanout and LazyIndex.init keep the " +
 			"fanout monotonicity rejection; LazyIndex.init accepts the file only on the pack-checksum-equal edge; mmap.loadIdxFile compares the tables implied by the object count with the mapping length before any lookup can slice it. " +
+			"(parallel-table-views) every composite literal that hands views of a bucket's Names, Offset32 and CRC32 tables to an iterator takes them all whole or all re-sliced, so one cursor indexes all of them. " +
 			"Not decided: equality of answers across implementations on all entry sets.",
 		Assumptions: []string{},
 		Run:         runC10,
@@ -242,6 +243,101 @@ func runC10(c *Ctx) {
 		_ = info
 	}
 	c.Floor(r3, 6)
+
+	// parallel-table-views: an iterator over one fanout bucket indexes the bucket's name, offset and CRC tables with the
+	// same position; in every composite literal that hands views of these tables to an iterator they are all taken whole
+	// or all re-sliced (a cursor that is right for two of them and wrong for the third yields another object's CRC)
+	const r4 = "parallel-table-views"
+	if pk := p.Pkg(idxfShort); pk != nil {
+		info := pk.TypesInfo
+		mi := p.lookupType(idxfShort, "MemoryIndex")
+		tables := map[types.Object]string{}
+		for _, n := range []string{"Names", "Offset32", "CRC32"} {
+			if f := fieldOf(mi, n); f != nil {
+				tables[f] = n
+			}
+		}
+		nLits := 0
+		for _, fi := range p.FuncsIn(idxfShort) {
+			if fi.Decl.Body == nil || p.isTestFile(fi.Decl.Pos()) {
+				continue
+			}
+			// locals that alias a bucket table: x := idx.Names[bucket]
+			alias := map[types.Object]string{}
+			tableOf := func(e ast.Expr) (string, bool) {
+				sliced := false
+				e = unparen(e)
+				for {
+					if se, ok := e.(*ast.SliceExpr); ok {
+						if se.Low != nil {
+							sliced = true
+						}
+						e = unparen(se.X)
+						continue
+					}
+					break
+				}
+				if id, ok := e.(*ast.Ident); ok {
+					if t, ok := alias[objOf(info, id)]; ok {
+						return t, sliced
+					}
+				}
+				if ix, ok := e.(*ast.IndexExpr); ok {
+					if sel, ok := unparen(ix.X).(*ast.SelectorExpr); ok {
+						if t, ok := tables[info.Uses[sel.Sel]]; ok {
+							return t, sliced
+						}
+					}
+				}
+				return "", false
+			}
+			ast.Inspect(fi.Decl.Body, func(n ast.Node) bool {
+				if as, ok := n.(*ast.AssignStmt); ok && len(as.Lhs) == 1 && len(as.Rhs) == 1 {
+					if t, sliced := tableOf(as.Rhs[0]); t != "" && !sliced {
+						if o := objOf(info, as.Lhs[0]); o != nil {
+							alias[o] = t
+						}
+					}
+				}
+				return true
+			})
+			ast.Inspect(fi.Decl.Body, func(n ast.Node) bool {
+				cl, ok := n.(*ast.CompositeLit)
+				if !ok {
+					return true
+				}
+				views := map[string]bool{}
+				for _, el := range cl.Elts {
+					kv, ok := el.(*ast.KeyValueExpr)
+					if !ok {
+						continue
+					}
+					if t, sliced := tableOf(kv.Value); t != "" {
+						views[t] = sliced
+					}
+				}
+				if len(views) < 2 {
+					return true
+				}
+				nLits++
+				c.Analysed(fi)
+				same := true
+				var first *bool
+				for _, s := range views {
+					s := s
+					if first == nil {
+						first = &s
+					} else if *first != s {
+						same = false
+					}
+				}
+				c.Check(same, r4, fi.Name()+":iterator-views", cl.Pos(), orStr(ifStr(!same, "the bucket's tables are handed to the iterator with different origins (some re-sliced, some whole): one cursor cannot be right for all of them"),
+					"the bucket's tables are all handed over whole or all re-sliced"))
+				return true
+			})
+		}
+		c.Check(nLits >= 1, r4, idxfShort+":iterator-literals", 0, itoa(nLits)+" iterator literals that view at least two of the bucket tables examined")
+	}
 }
 
 func utoa(u uint64) string {
